@@ -35,6 +35,8 @@ var c06Data = []datum{
 	{src: `moves(a * 2)`, steps: []string{"a", "a"}},
 	{src: `moves(a a)`, steps: []string{"a", "a"}},
 	{src: `moves(ab)`, steps: []string{"ab"}},
+	{src: `moves(a * 3)`, steps: []string{"a", "a", "a"}},
+	{src: `moves(a b * 2)`, steps: []string{"a", "b", "b"}},
 }
 
 const c06Contexts = 13
@@ -132,7 +134,7 @@ func runC06(tier string) int {
 	r.Assume("names are <owner>_Text_<n> / <owner>_Movement_<n>, n counting the owner's new contents in source order of first appearance; content of a moves() is its written, expanded step list",
 		"identical content = identical text after terminator and format() processing and identical string type")
 	return r.Finish(r.Get("evaluations"), r.Get("nontrivial"),
-		"every file with N inline arguments distributed over 3 owners (two scripts and an inline map script, <= 3 each) x every assignment of 11 datum kinds (plain / already-terminated / formatted / other text, ascii and custom types, 5 moves() spellings) x context rotations over 13 contexts (statement, if, while, switch case, AutoVar condition, selected poryswitch case, '_' case after an unselected one, do-while condition, AutoVar leaf in a parenthesised / negated group followed by an operator, elif condition, AutoVar switch operand, second of two inline data in one command) x {no user name, a user text, a user movement named like a generated label}; non-trivial = some content is shared between two arguments")
+		"every file with N inline arguments distributed over 3 owners (two scripts and an inline map script, <= 3 each) x every assignment of 13 datum kinds (plain / already-terminated / formatted / other text, ascii and custom types, 7 moves() spellings incl. lists that differ only in the length of their last run) x context rotations over 13 contexts (statement, if, while, switch case, AutoVar condition, selected poryswitch case, '_' case after an unselected one, do-while condition, AutoVar leaf in a parenthesised / negated group followed by an operator, elif condition, AutoVar switch operand, second of two inline data in one command) x {no user name, a user text, a user movement named like a generated label}; non-trivial = some content is shared between two arguments")
 }
 
 func c06Eval(r *harness.Run, data []datum, dist []int, rot, clash int) {
